@@ -480,4 +480,94 @@ theorem centersOf_none {n : Netlist α} {xs : List String} (h : centersOf n xs =
           exact ⟨y, List.mem_cons_of_mem _ hy, hyy⟩
         | some r => simp [hc, hr] at h
 
+/-! ### the tolerance a netlist proposes -/
+
+theorem optMin_some (a : Option α) (b : α) : ∃ x, optMin a b = some x ∧ x ≤ b ∧ ∀ y, a = some y → x ≤ y := by
+  cases a with
+  | none => exact ⟨b, rfl, le_refl _, by intro y hy; cases hy⟩
+  | some y =>
+    refine ⟨min y b, by simp [optMin], min_le_right _ _, ?_⟩
+    intro y' hy'; cases hy'; exact min_le_left _ _
+
+theorem foldl_rects_le (l : List (NRect α)) (acc : Option α) (d : α)
+    (h : l.foldl (fun acc r => optMin (optMin acc r.w.val) r.h.val) acc = some d) :
+    (∀ a, acc = some a → d ≤ a) ∧ ∀ r ∈ l, d ≤ r.w.val ∧ d ≤ r.h.val := by
+  induction l generalizing acc with
+  | nil => simp at h; subst h; exact ⟨fun a ha => by cases ha; exact le_refl _, by simp⟩
+  | cons r rest ih =>
+    simp only [List.foldl_cons] at h
+    obtain ⟨x1, e1, x1w, x1a⟩ := optMin_some acc r.w.val
+    obtain ⟨x2, e2, x2h, x2a⟩ := optMin_some (some x1) r.h.val
+    rw [e1] at h
+    rw [e2] at h
+    obtain ⟨i1, i2⟩ := ih (some x2) h
+    have hd2 : d ≤ x2 := i1 x2 rfl
+    have h21 : x2 ≤ x1 := x2a x1 rfl
+    refine ⟨fun a ha => le_trans hd2 (le_trans h21 (x1a a ha)), ?_⟩
+    intro r' hr'
+    rcases List.mem_cons.mp hr' with rfl | hr'
+    · exact ⟨le_trans hd2 (le_trans h21 x1w), le_trans hd2 x2h⟩
+    · exact i2 r' hr'
+
+theorem foldl_areas_le (sqrt : α → α) (l : List (Mod α)) (acc : Option α) (d : α)
+    (h : l.foldl (fun acc m => if (0 : α) < m.area then optMin acc (sqrt m.area) else acc) acc = some d) :
+    (∀ a, acc = some a → d ≤ a) ∧ ∀ m ∈ l, 0 < m.area → d ≤ sqrt m.area := by
+  induction l generalizing acc with
+  | nil => simp at h; subst h; exact ⟨fun a ha => by cases ha; exact le_refl _, by simp⟩
+  | cons m rest ih =>
+    simp only [List.foldl_cons] at h
+    by_cases hp : 0 < m.area
+    · simp only [hp, ↓reduceIte] at h
+      obtain ⟨x1, e1, x1s, x1a⟩ := optMin_some acc (sqrt m.area)
+      rw [e1] at h
+      obtain ⟨i1, i2⟩ := ih (some x1) h
+      refine ⟨fun a ha => le_trans (i1 x1 rfl) (x1a a ha), ?_⟩
+      intro m' hm' hpos
+      rcases List.mem_cons.mp hm' with rfl | hm'
+      · exact le_trans (i1 x1 rfl) x1s
+      · exact i2 m' hm' hpos
+    · simp only [hp, ↓reduceIte] at h
+      obtain ⟨i1, i2⟩ := ih acc h
+      refine ⟨i1, ?_⟩
+      intro m' hm' hpos
+      rcases List.mem_cons.mp hm' with rfl | hm'
+      · exact absurd hpos hp
+      · exact i2 m' hm' hpos
+
+/-- `smallest_distance` is a lower bound of every rectangle side and of the square root of every positive module area. -/
+theorem smallestDistance_le (sqrt : α → α) (ms : List (Mod α)) (d : α) (h : smallestDistance sqrt ms = some d) :
+    (∀ m ∈ ms, ∀ r ∈ m.rects, d ≤ r.w.val ∧ d ≤ r.h.val) ∧ (∀ m ∈ ms, 0 < m.area → d ≤ sqrt m.area) := by
+  unfold smallestDistance at h
+  simp only [zero_eq] at h
+  obtain ⟨j1, j2⟩ := foldl_areas_le sqrt ms _ d h
+  refine ⟨?_, j2⟩
+  intro m hm r hr
+  cases hs : (ms.flatMap (·.rects)).foldl (fun acc r => optMin (optMin acc r.w.val) r.h.val) none with
+  | none =>
+    -- impossible: the list of rectangles is not empty
+    have hmem : r ∈ ms.flatMap (·.rects) := List.mem_flatMap.mpr ⟨m, hm, hr⟩
+    obtain ⟨r0, rest, hrr⟩ := List.exists_cons_of_ne_nil (List.ne_nil_of_mem hmem)
+    rw [hrr] at hs
+    simp only [List.foldl_cons] at hs
+    obtain ⟨x1, e1, _, _⟩ := optMin_some (none : Option α) r0.w.val
+    obtain ⟨x2, e2, _, _⟩ := optMin_some (some x1) r0.h.val
+    rw [e1, e2] at hs
+    have : ∀ (l : List (NRect α)) (x : α), ∃ y, l.foldl (fun acc r => optMin (optMin acc r.w.val) r.h.val) (some x) = some y := by
+      intro l
+      induction l with
+      | nil => intro x; exact ⟨x, rfl⟩
+      | cons q qs ihq =>
+        intro x
+        simp only [List.foldl_cons]
+        obtain ⟨y1, f1, _, _⟩ := optMin_some (some x) q.w.val
+        obtain ⟨y2, f2, _, _⟩ := optMin_some (some y1) q.h.val
+        rw [f1, f2]; exact ihq y2
+    obtain ⟨y, hy⟩ := this rest x2
+    rw [hy] at hs; cases hs
+  | some d1 =>
+    obtain ⟨_, k2⟩ := foldl_rects_le _ none d1 hs
+    have hdd : d ≤ d1 := j1 d1 hs
+    have := k2 r (List.mem_flatMap.mpr ⟨m, hm, hr⟩)
+    exact ⟨le_trans hdd this.1, le_trans hdd this.2⟩
+
 end FV.NL
